@@ -14,7 +14,12 @@ pub assume_specification<T, E>[Result::<T, E>::unwrap_or](res: Result<T, E>, def
 // ---- ubyte::ByteUnit: a number of bytes (u64) -----------------------------------------------------
 #[derive(Clone, Copy)]
 pub struct ByteUnit(pub u64);
-impl ByteUnit { pub fn as_u64(self) -> (r: u64) ensures r == self.0 { self.0 } }
+impl ByteUnit {
+    pub fn as_u64(self) -> (r: u64) ensures r == self.0 { self.0 }
+    /// `Ord::max` / `Ord::min` (API neighbourhood, not called by the unchanged code), as inherent methods
+    pub fn max(self, o: ByteUnit) -> (r: ByteUnit) ensures r == (if self.0 >= o.0 { self } else { o }) { if self.0 >= o.0 { self } else { o } }
+    pub fn min(self, o: ByteUnit) -> (r: ByteUnit) ensures r == (if self.0 <= o.0 { self } else { o }) { if self.0 <= o.0 { self } else { o } }
+}
 /// ubyte: `usize` compares with `ByteUnit` by number of bytes
 impl PartialEq<ByteUnit> for usize { #[verifier::external_body] fn eq(&self, o: &ByteUnit) -> (r: bool) { unimplemented!() } }
 impl PartialEqSpecImpl<ByteUnit> for usize {
